@@ -217,7 +217,24 @@ impl C06 {
                         }
                     }
                     RootRes::NoCheckpoint => {}
-                    RootRes::NotComputable(_) => self.roots_not_computable += 1,
+                    RootRes::NotComputable(why) => {
+                        self.roots_not_computable += 1;
+                        // Once EVERY block of the chain has been scanned nothing is missing below any
+                        // checkpoint: a retained checkpoint whose root still cannot be computed points
+                        // into leaves that were pruned away - it can never serve as an anchor.
+                        if full && h.aborted.is_none() && !tainted && h.unscanned_ranges().is_empty() && h.sim.sizes_at(*id)[pool.idx()] > 0 {
+                            let on_grid = h.cfg.retention.map_or(false, |n| h.cfg.nu6_3_activation().map_or(false, |a| *id >= a) && *id % n == 0);
+                            let empty_block = h.sim.blocks.get(id).map_or(false, |b| b.leaves[pool.idx()].is_empty());
+                            let kind = match (on_grid, empty_block) {
+                                (true, true) => "retention-boundary-on-block-without-commitments",
+                                (true, false) => "retention-boundary",
+                                (false, true) => "ordinary-checkpoint-on-block-without-commitments",
+                                (false, false) => "ordinary-checkpoint",
+                            };
+                            let sig = format!("C06:checkpoint-root-not-computable-after-full-scan:{kind}");
+                            self.viol(h, r, &sig, format!("{} checkpoint {id} is retained, every block of the chain is scanned, yet its root cannot be computed: {}", pool.name(), why.chars().take(160).collect::<String>()));
+                        }
+                    }
                 }
             }
             id_sets.push(rs.keys().copied().collect());
@@ -505,7 +522,7 @@ fn main() {
         if let Err(p) = res {
             r.violation(&format!("C06:panic:{}", panic_class(&p)), p, json!({"cfg": cfg.to_json(), "micro": m}));
         }
-        r.count(if kind % 2 == 0 { "micro_histories_activation_inside_chain" } else { "micro_histories_late_pool_one_batch" }, 1);
+        r.count(if cfg.initial_one_batch { "micro_histories_deep_batch_empty_grid_blocks" } else if kind % 2 == 0 { "micro_histories_activation_inside_chain" } else { "micro_histories_late_pool_one_batch" }, 1);
         let _ = vh_wallet::hooks::take();
     }
     for i in 0..n {
